@@ -7,6 +7,7 @@ S=scratch/corpus-$$
 mkdir -p $S/overlay
 cp harness/*.go $S/overlay/
 bin/genast -out $S/overlay/zz_verif_gen_ast.go -native-out $S/overlay/zz_verif_gen_globals_native.go
+python3 lib/gencorpus.py /repo $S/overlay/zz_verif_gen_corpus.go >/dev/null
 python3 - "$S" <<'PY'
 import json,os,sys,re
 s=sys.argv[1]; ov=os.path.join(s,"overlay"); rep={}
